@@ -538,7 +538,7 @@ def c14_case(seed, tier):
 def c14_shapes_build(seed, tier):
     g = Gen(seed)
     r = g.r
-    kind = r.choice(["empty_lists", "single_var", "unbounded_lp", "too_few_rows", "cancelling"])
+    kind = r.choice(["empty_lists", "single_var", "unbounded_lp", "too_few_rows", "cancelling", "dependent_rows", "dependent_rows"])
     names = ["x", "y", "z"]
     if kind == "empty_lists":
         S, G, E = [], [g.term(names)], ["x"]
@@ -548,6 +548,15 @@ def c14_shapes_build(seed, tier):
         S, G, E = [g.term(names, 2, 3)], [g.term(names, 1, 2)], r.sample(names, 2)
     elif kind == "too_few_rows":
         S, G, E = [g.term(names, 3, 3)], [g.term(names, 1, 1)], names
+    elif kind == "dependent_rows":
+        # context rows that are linearly dependent in the eliminated variables but tie them to different other variables
+        # (inconsistent when read as equalities), plus bounds that make the LPs feasible and bounded
+        a, b2 = float(r.choice([1, 2])), float(r.choice([1, 2, 3]))
+        rows = [g.PT({g.Var("x"): a, g.Var("y"): b2, g.Var("u"): 1.0}, 1.0), g.PT({g.Var("x"): a, g.Var("y"): b2, g.Var("v"): 1.0}, 2.0), g.PT({g.Var("y"): -1.0, g.Var("w"): 1.0}, 0.0)]
+        rows += [g.PT({g.Var(n): -1.0}, float(r.choice([0, -1]))) for n in ("u", "v", "w")]
+        r.shuffle(rows)
+        S = [g.PT({g.Var("z"): 1.0, g.Var("x"): float(r.choice([-1, 1])), g.Var("y"): float(r.choice([-1, 1]))}, 0.0)]
+        G, E = rows, ["x", "y"]
     else:
         t = g.term(names, 2, 3)
         S, G, E = [t, g.PT({k: -v for k, v in t.variables.items()}, -t.constant)], [g.term(names, 1, 2)], r.sample(names, 1)
